@@ -3,7 +3,7 @@
 manifest is always valid and current)."""
 import json, subprocess
 
-HOOK_COMMITS = ["00a6da5"]
+HOOK_COMMITS = ["00a6da5", "138be5b"]
 
 CHECKS = {
  "C01": dict(engine="seqx", technique="explicit-state BFS over operation histories on the real store vs reference model (bounded exhaustive)",
@@ -39,6 +39,23 @@ CHECKS["C10"] = dict(engine="imagex", technique="exhaustive cut-position / zero-
 CHECKS["C13"] = dict(engine="lockx", technique="exhaustive command-sequence enumeration over 3 contender processes with a reference holder variable",
    text="Three contender processes (each may also attempt a second in-process instance) are driven through every sequence over {open store, open dump, drop} up to depth 5 (quick) / 7 (thorough) on a directory whose newest chunk has a torn tail (an opener that got past the lock would modify it); an attempt must succeed iff nobody holds the directory, refused attempts must leave every chunk file byte-identical.",
    note="kernel flock trusted; thread-level libc-call interleavings: fine level under the controlled scheduler", ref="5 C13")
+
+SCHED_NOTE = "scheduling points = verif-hooks gates + interposed libc file-system calls (sufficient because the crate has no unsafe and shares only channel, cache lock, done_seq, callbacks and files); sequential consistency; histories bounded in length; crash model as stated in DESIGN 3.5"
+CHECKS["C03"] = dict(engine="schedx", technique="stateless DFS over all caller/worker schedules of the real code (controlled scheduler, sleep sets) x every crash image at every scheduler state, recovered by the real open()",
+   text="For every history up to the length bound every schedule of the real caller thread and the real FlushWorker thread is executed under a controlled scheduler; at every scheduler state every post-crash image of the crash model (process crash incl. a write in flight; power loss cutting each file at/above its synced length or zero-filling from a record boundary) is materialised and opened with the real RaftLog::open; whenever it opens, its state and entries must equal the model after some prefix of the issued writes that includes every write issued before a flush whose callback had reported Ok.",
+   note=SCHED_NOTE, ref="5 C03")
+CHECKS["C05"] = dict(engine="schedx", technique="same exploration as C03; oracle: recovery returns Ok without panic and the recovered store accepts writes, flush, ack and another restart",
+   text="Same schedules, crash points and crash images as C03; every image must open (no Err, no panic), then vote+append+flush must be acknowledged, reads must match and a further restart must succeed. Refusals caused by an unfinished rotation (F5) are a recorded known finding whose class is computed from the image alone; any other refusal or panic is a violation.",
+   note=SCHED_NOTE, ref="5 C05")
+CHECKS["C04"] = dict(engine="schedx", technique="stateless DFS over all schedules x deviation-bounded fault injection (EIO, EINTR, short write) at worker write/fdatasync; trace oracle at every callback",
+   text="For every history and schedule, and for every placement of up to the fault bound of injected failures at the worker's write/fdatasync calls, the libc-level trace is checked at every callback: Ok implies every record (and head snapshot) journalled before that flush is written at its predicted place and covered by a later successful sync of that same file; callbacks fire at most once, exactly once without faults, in request order; absorbed deviations (EINTR, short write) must leave behaviour unchanged.",
+   note=SCHED_NOTE + "; a later successful fdatasync is taken to cover all bytes written before it", ref="5 C04")
+CHECKS["C07"] = dict(engine="schedx", technique="stateless DFS over all schedules under small cache limits; every read compared with the reference model",
+   text="Histories with reads (range reads, per-index reads and snapshot iteration) at arbitrary points are run under every schedule of caller and worker for cache limits incl. 0 items / 0 bytes; every read must return exactly the model's live entries without error however far the worker has got (buffered, queued, written, synced, evicted, drained).",
+   note=SCHED_NOTE + "; reader-thread concurrency is covered by the reader harness when built", ref="5 C07")
+CHECKS["C08"] = dict(engine="schedx", technique="stateless DFS over all schedules x fault injection x crash images; trace oracle at every unlink",
+   text="At every unlink in every explored execution: the file stores no live entry (model), it is the oldest chunk file, and the durable remainder (each remaining file cut to its synced length, decoded independently) already contains the purge that made it obsolete, also when syncs fail; crash images around the unlinks satisfy the C03 oracle; after an effective purge + flush + idle every obsolete closed chunk is gone.",
+   note=SCHED_NOTE, ref="5 C08")
 
 NOT_YET = {
  "C03": "engine schedx --crash not built yet (planned, DESIGN 4.3)",
@@ -85,6 +102,8 @@ def main():
         "engines": [
             {"name": "seqx", "path": "harness/src/seqx.rs", "serves_properties": ["C01","C02","C06","C11","C15","C16"],
              "kind_free_text": "explicit-state breadth-first search over operation histories; every transition runs the real store; reference-model oracle"},
+            {"name": "schedx", "path": "harness/src/schedx.rs (scheduler: sched.rs, interposition: interpose.rs, crash model: shadow.rs)", "serves_properties": ["C03","C04","C05","C07","C08"],
+             "kind_free_text": "stateless model checking of the real two-thread implementation: exhaustive schedule exploration with sleep sets, fault injection, crash-image enumeration"},
             {"name": "imagex", "path": "harness/src/imagex.rs", "serves_properties": ["C09","C10"],
              "kind_free_text": "exhaustive enumeration of damaged on-disk images recovered by the real RaftLog::open"},
             {"name": "lockx", "path": "harness/src/lockx.rs", "serves_properties": ["C13"],
